@@ -19,7 +19,7 @@ Commands (first word `life` stripped by `Main/Lifecycle.lean`):
 * `whist <kkk> <n> (<selected cls> <id> <const> <lo> <hi> <len>)×n`   (the wrapper; selection is external)
     → `ok <step>…` with the inner instance's step
 * `query <fitted 0/1> <override> <hasparams 0/1> <cdf|ppf|pdf|sample|logpdf>` → `const <c>` | `reg` | `err <kind>`
-* `guard <cls> <method>` → `guarded` | `unguarded` | `absent` | `noclass`
+* `guard <cls> <method>` → `guarded` | `abstract` | `unguarded` | `absent` | `noclass`
 * `classes` → `<name>:<package>:<storeArgs>:<losesOptions>:<kind>:<fittedLast>:<validated>:<params,>` …
 * `facts` → override attributes, validation checks, get_instance forms, flags
 * `valid <len> <numeric 0/1> <nan 0/1> <fitted 0/1> <body ok|raise>` → `ok fitted=<b>` | `err <kind> fitted=<b> changed=<b>`
@@ -141,6 +141,14 @@ def queryCmd (ws : List String) : String :=
     | _, _, _ => "bad-op"
   | _ => "bad-op"
 
+/-- the guard at the end of the delegation chain. -/
+def finalGuard (ci : ClassInfo) : Nat → String → Option Guard
+  | 0, _ => none
+  | fuel + 1, m =>
+    match lookupGuard ci m with
+    | some (.delegate m') => finalGuard ci fuel m'
+    | g => g
+
 def guardCmd (ws : List String) : String :=
   match ws with
   | [cls, m] =>
@@ -149,7 +157,7 @@ def guardCmd (ws : List String) : String :=
     | some ci =>
       match lookupGuard ci m with
       | none => "absent"
-      | some _ => if guarded ci m then "guarded" else "unguarded"
+      | some _ => if guarded ci m then "guarded" else if finalGuard ci 4 m == some .abstract then "abstract" else "unguarded"
   | _ => "bad-op"
 
 def classesCmd : String :=
